@@ -30,7 +30,7 @@ What is taken from the code, line by line:
 namespace SxVerif.Socks
 
 /-- durations and instants (one unit for everything; the driver uses microseconds) -/
-abbrev Dur := Nat
+scoped notation "Dur" => Nat
 
 /-- number of `Dur` units in one second (the unit of `SetLinger`'s argument) -/
 def unitsPerSecond : Nat := 1000000
@@ -196,7 +196,7 @@ structure Result where
   elapsed : Dur                   -- instant at which `Scan` returns (the dial starts at 0)
   wrote : Option (List UInt8)     -- bytes handed to `conn.Write`, if the probe got that far
   reads : Nat                     -- `Read` calls issued
-  deriving Repr
+  deriving Repr, DecidableEq
 
 /-- time the deferred `conn.Close()` blocks -/
 def closeCost (cfg : Cfg) (s : Script) : Dur :=
